@@ -1,10 +1,10 @@
 (** C01 -- writing the re-read object: t2data.write (t2data.read (t2data.write d)) is the first
     file up to trailing blanks, and from then on nothing changes.  Main file, mesh in the file,
-    no extra precision; sections of [idem_covered]. *)
+    no extra precision; all 23 section kinds ([idem_covered]). *)
 From Coq Require Import Ascii String List Bool Arith ZArith NArith Lia.
 From PTBase Require Import Exn PyStr PyNum PyVal Fmt FixedFormat.
 From Gen Require Import GenTables GenSections.
-From P Require Import Comb Obj Fields Idem Sections SectionsB Rec Prog SecRocks SecMesh SecGener SecMisc SecParam SecHist SecSel SecShort SecMeshm T2DataIO Whole IdemSec IdemSecB.
+From P Require Import Comb Obj Fields Idem Sections SectionsB Rec Prog SecRocks SecMesh SecGener SecMisc SecParam SecHist SecSel SecShort SecMeshm T2DataIO Whole IdemSec IdemSecB IdemMeshm.
 Import ListNotations.
 Open Scope string_scope.
 
@@ -77,26 +77,28 @@ Definition prog_sec (d : t2d) (k : string) : list item :=
   else if k =? "INDOM" then prog_indom d
   else if k =? "SELEC" then prog_selec d
   else if k =? "DIFFU" then prog_diffu d
+  else if k =? "MESHM" then prog_mms T0 (meshmaker d)
   else lits (wsec d k).
 Definition wfw_sec (d : t2d) (k : string) : bool :=
   if k =? "ROCKS" then forallb wfw_rock (rocks d)
   else if k =? "ELEME" then true
   else if k =? "CONNE" then true
-  else if k =? "PARAM" then wfw_param d
+  else if k =? "PARAM" then wfw_param T0 d
   else if k =? "RPCAP" then wfw_rpcap d
   else if k =? "LINEQ" then true
   else if k =? "SOLVR" then true
-  else if k =? "MULTI" then true
+  else if k =? "MULTI" then wfw_multi T0 d
   else if k =? "TIMES" then wfw_times d
   else if k =? "GENER" then forallb wfw_gen (gens d)
   else if k =? "INCON" then true
   else if k =? "INDOM" then true
   else if k =? "SELEC" then wfw_selec d
   else if k =? "DIFFU" then true
+  else if k =? "MESHM" then forallb wfw_mm (meshmaker d)
   else existsb (String.eqb k) ident_kinds && is_ok (wsec d k).
 (** sections for which the second file is a theorem *)
 Definition rec_kinds : list string := ["ROCKS"; "ELEME"; "CONNE"; "PARAM"].
-Definition rec_kinds2 : list string := ["RPCAP"; "LINEQ"; "SOLVR"; "MULTI"; "TIMES"; "GENER"; "INCON"; "INDOM"; "SELEC"; "DIFFU"].
+Definition rec_kinds2 : list string := ["RPCAP"; "LINEQ"; "SOLVR"; "MULTI"; "TIMES"; "GENER"; "INCON"; "INDOM"; "SELEC"; "DIFFU"; "MESHM"].
 Definition idem_covered : list string := rec_kinds +++ rec_kinds2 +++ ident_kinds.
 
 Lemma flat_map_ext_in {A B} (f g : A -> list B) l : (forall x, In x l -> f x = g x) -> flat_map f l = flat_map g l.
@@ -135,7 +137,7 @@ Proof.
     + rewrite wsec_RPCAP. apply write_rpcap_prog. exact WF.
     + rewrite wsec_LINEQ. apply write_dictsec_prog.
     + rewrite wsec_SOLVR. apply write_dictsec_prog.
-    + rewrite wsec_MULTI. apply write_multi_prog.
+    + rewrite wsec_MULTI. apply write_multi_prog. exact WF.
     + rewrite wsec_TIMES. apply write_times_prog. exact WF.
     + rewrite wsec_GENER. unfold write_gens, prog_gener. destruct (gens d) as [|g0 gs] eqn:EG; [reflexivity|]. rewrite <- EG in *.
       apply (list_writer_prog (write_gen T0) prog_gen "GENER"). intros g I. rewrite forallb_forall in WF. apply write_gen_prog; [assumption|apply WF; exact I].
@@ -143,6 +145,9 @@ Proof.
     + rewrite wsec_INDOM. apply write_indom_prog.
     + rewrite wsec_SELEC. apply write_selec_prog. exact WF.
     + rewrite wsec_DIFFU. apply write_diffu_prog.
+    + rewrite wsec_MESHM. apply write_meshmaker_prog; [|exact WF].
+      match goal with M : meshm_table_ok T0 = true |- _ => unfold meshm_table_ok in M; apply andb_prop in M as [_ M]; unfold minc_table_ok in M;
+        do 3 (apply andb_prop in M as [M _]); exact M end.
   - unfold ident_kinds in IN. cbn [In] in IN.
     repeat (destruct IN as [IN|IN]; [subst k|]); [..|contradiction]; unfold wfw_sec, prog_sec in *; cbn [String.eqb Ascii.eqb Bool.eqb] in *;
       apply andb_prop in WF as [_ OK]; unfold lits;
@@ -165,6 +170,7 @@ Definition same_for (k : string) (X Y : t2d) : Prop :=
   else if k =? "INDOM" then indom X = indom Y
   else if k =? "SELEC" then selection X = selection Y
   else if k =? "DIFFU" then diffusion X = diffusion Y
+  else if k =? "MESHM" then meshmaker X = meshmaker Y
   else if k =? "SIMUL" then simulator X = simulator Y
   else if k =? "MOMOP" then momop X = momop Y
   else if k =? "START" then start X = start Y
@@ -194,6 +200,7 @@ Definition idem_sec (d dk : t2d) (k : string) : bool :=
   else if k =? "SELEC" then (length (Sections.sp T0 "selec2") =? chunk_of "write_selection")%nat
   else if k =? "DIFFU" then
     match dget (multi dk) "num_phases" with Some (XInt np) => idem_diffu T0 np (diffusion d) | _ => false end
+  else if k =? "MESHM" then idem_meshm T0 (meshmaker d)
   else if k =? "SIMUL" then str_eqb (strip (simulator d)) (simulator d)
   else true.
 Lemma short_freq_same s : wf_freq s = true ->
@@ -248,7 +255,7 @@ Proof.
     split; [rewrite E; apply prog_dictsec_canon; exact ID|reflexivity].
   - (* MULTI *)
     apply andb_prop in WF as [_ OKS]. destruct (strip_eos (canon_dict T0 (multi_spec d) (multi dk) (multi d))) as [m|] eqn:SE; [|discriminate].
-    split; [|reflexivity]. apply (prog_multi_canon T0 dk d X m ID SE); [rewrite SF; destruct dk; reflexivity|exact AX].
+    apply (prog_multi_canon T0 dk d X m ID SE); [rewrite SF; destruct dk; reflexivity|exact AX].
   - (* TIMES *)
     destruct (otimes d) as [x|] eqn:OD; [|discriminate].
     apply (prog_times_canon T0 d X (match otimes dk with Some (y, _) => y | None => [] end) x); auto; try (rewrite SF; destruct dk; reflexivity).
@@ -275,6 +282,9 @@ Proof.
   - (* DIFFU *)
     destruct (dget (multi dk) "num_phases") as [[|np| |]|] eqn:NP; try discriminate. split; [|reflexivity].
     apply (prog_diffu_canon T0 d X np ID). rewrite SF. destruct dk; reflexivity.
+  - (* MESHM *)
+    assert (E : meshmaker X = map (canon_mm T0) (meshmaker d)) by (rewrite SF; destruct dk; reflexivity).
+    unfold idem_meshm in ID. apply andb_prop in ID as [WX PE]. apply items_eqb_eq in PE. rewrite E. split; [exact PE|exact WX].
   - (* SIMUL *)
     apply str_eqb_eq in ID. rewrite !wsec_SIMUL in *. unfold write_simulator in *.
     assert (E : simulator X = simulator d) by (rewrite SF; destruct dk; cbn; exact ID). rewrite E.
@@ -387,6 +397,7 @@ Lemma frame_incon : frame incon "INCON". Proof. frame_tac. Qed.
 Lemma frame_indom : frame indom "INDOM". Proof. frame_tac. Qed.
 Lemma frame_selection : frame selection "SELEC". Proof. frame_tac. Qed.
 Lemma frame_diffusion : frame diffusion "DIFFU". Proof. frame_tac. Qed.
+Lemma frame_meshmaker : frame meshmaker "MESHM". Proof. frame_tac. Qed.
 Lemma frame_simulator : frame simulator "SIMUL". Proof. frame_tac. Qed.
 Lemma frame_momop : frame momop "MOMOP". Proof. frame_tac. Qed.
 Lemma frame_start : frame start "START". Proof. frame_tac. Qed.
@@ -417,6 +428,7 @@ Proof.
   - sf_case indom frame_indom ks d d0 ND IK.
   - sf_case selection frame_selection ks d d0 ND IK.
   - sf_case diffusion frame_diffusion ks d d0 ND IK.
+  - sf_case meshmaker frame_meshmaker ks d d0 ND IK.
   - sf_case simulator frame_simulator ks d d0 ND IK.
   - sf_case momop frame_momop ks d d0 ND IK.
   - sf_case start frame_start ks d d0 ND IK.
